@@ -36,6 +36,8 @@ enum Op {
     SleepAlmostOne,
     /// a request of peer P/Q/R issued as its own task, not awaited before the next op
     Spawn(u8),
+    /// the same, carrying a `timeout` header of 5 ms (a deadline of its own is no permit)
+    SpawnT(u8),
 }
 
 fn op_json(o: &Op) -> Value {
@@ -47,10 +49,11 @@ fn op_json(o: &Op) -> Value {
         Op::SleepTwo => json!("sleep(2T)"),
         Op::SleepAlmostOne => json!("sleep(T-3ms)"),
         Op::Spawn(p) => json!(format!("spawn({})", ["P", "Q", "R"][*p as usize])),
+        Op::SpawnT(p) => json!(format!("spawn({}, timeout 5 ms)", ["P", "Q", "R"][*p as usize])),
     }
 }
 
-const OPS: [Op; 9] = [Op::Req(0), Op::Req(1), Op::Flood, Op::SleepHalf, Op::SleepTwo, Op::SleepAlmostOne, Op::Spawn(0), Op::Spawn(1), Op::Spawn(2)];
+const OPS: [Op; 11] = [Op::Req(0), Op::Req(1), Op::Flood, Op::SleepHalf, Op::SleepTwo, Op::SleepAlmostOne, Op::Spawn(0), Op::Spawn(1), Op::Spawn(2), Op::SpawnT(0), Op::SpawnT(1)];
 
 #[derive(Clone)]
 struct Inner {
@@ -138,7 +141,8 @@ fn run_sequence(burst: u32, period_ms: u64, block: bool, seq: &[Op], stall: Opti
                     let r = s.call(req).await;
                     outcomes.lock().unwrap().push(Outcome { peer: p, id, called, returned: Instant::now(), result: r.map(|_| ()).map_err(|e| Some((e.status(), e.headers().get(WAIT_NANOS_HEADER).cloned()))), must_admit: must });
                 }
-                Op::Spawn(p) => {
+                Op::Spawn(p) | Op::SpawnT(p) => {
+                    let with_deadline = matches!(*op, Op::SpawnT(_));
                     let id = next_id;
                     next_id += 1;
                     let must = low[p as usize] >= 1;
@@ -146,7 +150,10 @@ fn run_sequence(burst: u32, period_ms: u64, block: bool, seq: &[Op], stall: Opti
                     let mut s = if id % 2 == 0 { svc.clone() } else { svc2.clone() };
                     let outcomes = outcomes.clone();
                     handles.push(tokio::spawn(async move {
-                        let req = Request::new(Bytes::new()).with_header("id", id.to_string()).with_extension(PeerId([p; 32]));
+                        let mut req = Request::new(Bytes::new()).with_header("id", id.to_string()).with_extension(PeerId([p; 32]));
+                        if with_deadline {
+                            req = req.with_timeout(Duration::from_millis(5));
+                        }
                         let called = Instant::now();
                         let r = s.call(req).await;
                         outcomes.lock().unwrap().push(Outcome { peer: p, id, called, returned: Instant::now(), result: r.map(|_| ()).map_err(|e| Some((e.status(), e.headers().get(WAIT_NANOS_HEADER).cloned()))), must_admit: must });
@@ -272,7 +279,7 @@ fn run_sequence(burst: u32, period_ms: u64, block: bool, seq: &[Op], stall: Opti
     }
     if block {
         // everything is admitted in the end
-        let issued: usize = seq.iter().map(|o| match o { Op::Req(_) | Op::Spawn(_) => 1, Op::Flood => burst as usize + 2, _ => 0 }).sum();
+        let issued: usize = seq.iter().map(|o| match o { Op::Req(_) | Op::Spawn(_) | Op::SpawnT(_) => 1, Op::Flood => burst as usize + 2, _ => 0 }).sum();
         if outcomes.len() != issued {
             return Err(("block-mode-stuck".into(), format!("{ctx}: {} of {issued} requests completed within 5 s of the end of the sequence", outcomes.len())));
         }
@@ -281,7 +288,7 @@ fn run_sequence(burst: u32, period_ms: u64, block: bool, seq: &[Op], stall: Opti
     // behind another peer's long one. Judged by ORDER only (robust against timing noise): with
     // all requests issued at once, peer q's last admission is due at (n_q - burst) periods, peer
     // p's at (n_p - burst); if q's queue is shorter by three or more, q must finish first.
-    if block && seq.iter().all(|o| matches!(o, Op::Spawn(_))) {
+    if block && seq.iter().all(|o| matches!(o, Op::Spawn(_))) && !seq.is_empty() {
         let count = |p: u8| seq.iter().filter(|o| **o == Op::Spawn(p)).count();
         let last_admit = |p: u8| adm.iter().filter(|a| a.0 == p).map(|a| a.2).max();
         for p in 0..3u8 {
@@ -338,6 +345,9 @@ impl Check for C19 {
         // asymmetric backlogs (Block): peer P queues burst + 5 requests, then peer Q burst + 1
         for burst in [1u32, 3] {
             u.push(json!({"kind":"asymmetric","burst":burst,"period":PERIOD_MS,"block":true}));
+            for block in [true, false] {
+                u.push(json!({"kind":"deadline","burst":burst,"period":PERIOD_MS,"block":block}));
+            }
         }
         for (burst, peers, per_peer) in arr {
             for block in [false, true] {
@@ -353,6 +363,20 @@ impl Check for C19 {
         let burst = unit["burst"].as_u64().unwrap() as u32;
         let block = unit["block"].as_bool().unwrap();
         let period = unit["period"].as_u64().unwrap();
+        if unit["kind"] == "deadline" {
+            // the burst is used up, then over-quota requests arrive that carry a deadline of their own
+            for peer in [0u8, 1] {
+                let mut seq: Vec<Op> = vec![Op::Spawn(peer); burst as usize];
+                seq.extend(vec![Op::SpawnT(peer); 3]);
+                let seq_idx = seq.iter().map(|o| OPS.iter().position(|x| x == o).unwrap()).collect::<Vec<_>>();
+                out.evaluations += 1;
+                match run_sequence(burst, period, block, &seq, None) {
+                    Ok(_) => out.class(format!("deadline {}", if block { "block" } else { "error" })),
+                    Err((k, m)) => out.violation(k, m, json!({"unit": {"burst":burst,"period":period,"block":block}, "sequence": seq_idx})),
+                }
+            }
+            return;
+        }
         if unit["kind"] == "asymmetric" {
             for (first, second) in [(0u8, 1u8), (1, 0)] {
                 for extra in [1usize, 2] {
